@@ -76,7 +76,49 @@ func (m *monValset) PostBegin(ctx sdk.Context) {
 			m.topnAtBegin[id] = topnSnap{TopN: ps.Top_N, M: mp, HasM: has}
 		}
 		m.prevPhase[id] = ph
+		if ph != phDeleted && ph != providertypes.CONSUMER_PHASE_UNSPECIFIED {
+			m.checkListIndexes(ctx, id)
+		}
 	}
+}
+
+// checkListIndexes: the per-validator lookups the set computation uses (allowlist, denylist, priority list) must be exactly
+// the lists configured in the consumer's stored power-shaping parameters.
+func (m *monValset) checkListIndexes(ctx sdk.Context, id string) {
+	w := m.w
+	pk := w.P.PApp.ProviderKeeper
+	ps, err := pk.GetConsumerPowerShapingParameters(ctx, id)
+	if err != nil {
+		return
+	}
+	cmp := func(prop, what string, configured []string, index []providertypes.ProviderConsAddress) {
+		want, got := map[string]bool{}, map[string]bool{}
+		for _, a := range configured {
+			if ca, err := sdk.ConsAddressFromBech32(a); err == nil {
+				want[consHex(ca)] = true
+			}
+		}
+		for _, a := range index {
+			got[consHex(a.ToSdkConsAddr())] = true
+		}
+		if len(want) == 0 && len(got) == 0 {
+			return
+		}
+		w.Eval(prop)
+		w.Event(prop, "list-indexes-compared-with-configured-lists")
+		same := len(want) == len(got)
+		for k := range want {
+			if !got[k] {
+				same = false
+			}
+		}
+		if !same {
+			w.Violation(prop, "list-index-differs-from-configured-list:"+what, map[string]any{"consumer": id, "configured": keysOf(want), "index": keysOf(got)})
+		}
+	}
+	cmp("C02", "allowlist", ps.Allowlist, pk.GetAllowList(ctx, id))
+	cmp("C02", "denylist", ps.Denylist, pk.GetDenyList(ctx, id))
+	cmp("C04", "prioritylist", ps.Prioritylist, pk.GetPriorityList(ctx, id))
 }
 
 func (m *monValset) PreEnd(ctx sdk.Context) {}
@@ -353,6 +395,21 @@ func (m *monValset) checkConsumerSet(ctx sdk.Context, id string, atLaunch bool) 
 			if !c.inSet {
 				w.Violation("C02", "eligible-validator-missing:"+when, map[string]any{"consumer": id, "val": w.valName(c.sv.ConsAddr), "power": c.sv.LastPower,
 					"tokens": c.sv.Tokens.String(), "active": c.active, "allow_inactive": ps.AllowInactiveVals, "topN": ps.Top_N})
+			}
+		}
+	}
+	// C03: on a Top-N consumer every active validator with power >= m validates, unless the allowlist, the denylist or the
+	// minimum stake excludes it (a validator-set cap does not apply to Top-N consumers)
+	if ps.Top_N > 0 && hasM {
+		for _, c := range cands {
+			if !c.active || c.sv.LastPower < mStored || !c.sv.Bonded() || c.sv.Jailed {
+				continue
+			}
+			w.Eval("C03")
+			w.Event("C03", "required-validators-checked")
+			if c.elig && !c.inSet {
+				w.Violation("C03", "required-topn-validator-not-in-set:"+when, map[string]any{"consumer": id, "val": w.valName(c.sv.ConsAddr), "power": c.sv.LastPower, "m": mStored,
+					"set_cap": ps.ValidatorSetCap, "set_size": len(set)})
 			}
 		}
 	}
